@@ -572,6 +572,24 @@ func (c *Ctx) trieTraversals() {
 					}
 				}
 			}
+			// the walk written as a loop: the splitter is applied to the loop's topic variable, which starts as the
+			// parameter and continues as the splitter's remainder
+			if ph, isPhi := ir.SeeThrough(splits[0].Common().Args[ta]).(*ssa.Phi); isPhi && ta < len(splits[0].Common().Args) {
+				fromParam, fromRem, other := false, false, false
+				for _, e := range ph.Edges {
+					e = ir.SeeThrough(e)
+					if e == ssa.Value(fn.Params[1]) {
+						fromParam = true
+					} else if ex, ok := e.(*ssa.Extract); ok && ex.Tuple == splits[0].(ssa.Value) && ex.Index == rr {
+						fromRem = true
+					} else if e != ssa.Value(ph) {
+						other = true
+					}
+				}
+				if fromParam && fromRem && !other {
+					okSplit, okRem = true, true
+				}
+			}
 		}
 		c.R.Check(okSplit && okRem, ruleP4, x.fn+":splits-input-and-recurses-on-remainder", c.P.Pos(fn.Pos()), "level, rem := nextTopicLevel(topic); recursion on rem", x.fn+" does not split its own topic argument with nextTopicLevel and recurse on the remainder: insert, remove and match disagree about the levels of a filter")
 	}
@@ -784,6 +802,7 @@ func (c *Ctx) endOfLevelsSignal() {
 		key := x.fn + ":end-of-levels-signal-unambiguous"
 		// the terminal test: the first branch of the walk on its topic parameter
 		byLen, byNil := false, false
+		tv := c.walkTopicVars(fn)
 		for _, b := range fn.Blocks {
 			iff, ok := b.Instrs[len(b.Instrs)-1].(*ssa.If)
 			if !ok {
@@ -795,6 +814,31 @@ func (c *Ctx) endOfLevelsSignal() {
 			}
 			if a == "nonnil:topic" {
 				byNil = true
+			}
+			// the walk written as a loop: the topic variable is the loop's phi of the parameter and the remainder
+			cond := iff.Cond
+			for i := 0; i < 3; i++ {
+				if u, ok := cond.(*ssa.UnOp); ok && u.Op == token.NOT {
+					cond = u.X
+				}
+			}
+			if bo, ok := cond.(*ssa.BinOp); ok {
+				for _, pr := range [][2]ssa.Value{{bo.X, bo.Y}, {bo.Y, bo.X}} {
+					k, isK := pr[1].(*ssa.Const)
+					if !isK {
+						continue
+					}
+					if _, isPhi := pr[0].(*ssa.Phi); isPhi && tv[pr[0]] && k.IsNil() {
+						byNil = true
+					}
+					if call, isC := pr[0].(*ssa.Call); isC && k.Value != nil {
+						if bi, isB := call.Common().Value.(*ssa.Builtin); isB && bi.Name() == "len" {
+							if _, isPhi := call.Common().Args[0].(*ssa.Phi); isPhi && tv[call.Common().Args[0]] {
+								byLen = true
+							}
+						}
+					}
+				}
 			}
 		}
 		switch {
@@ -884,4 +928,57 @@ func leafHost(fn *ssa.Function, has func(*ssa.Function) bool) *ssa.Function {
 		return found
 	}
 	return fn
+}
+
+// walkTopicVars: the values that stand for "the rest of the topic" in a trie walk: the topic parameter, and - when
+// the walk is a loop - the phis that merge it with a remainder returned by the level splitter.
+func (c *Ctx) walkTopicVars(fn *ssa.Function) map[ssa.Value]bool {
+	out := map[ssa.Value]bool{}
+	if len(fn.Params) < 2 {
+		return out
+	}
+	out[fn.Params[1]] = true
+	isRem := func(v ssa.Value) bool {
+		ex, ok := ir.SeeThrough(v).(*ssa.Extract)
+		if !ok {
+			return false
+		}
+		call, ok := ex.Tuple.(*ssa.Call)
+		if !ok {
+			return false
+		}
+		f := call.Common().StaticCallee()
+		if f == nil {
+			return false
+		}
+		_, rr, isSp := c.splitterShape(f)
+		return isSp && ex.Index == rr
+	}
+	for changed := true; changed; {
+		changed = false
+		for _, b := range fn.Blocks {
+			for _, in := range b.Instrs {
+				ph, ok := in.(*ssa.Phi)
+				if !ok || out[ph] {
+					continue
+				}
+				all, some := true, false
+				for _, e := range ph.Edges {
+					e = ir.SeeThrough(e)
+					switch {
+					case out[e] || isRem(e):
+						some = true
+					case e == ssa.Value(ph):
+					default:
+						all = false
+					}
+				}
+				if all && some {
+					out[ph] = true
+					changed = true
+				}
+			}
+		}
+	}
+	return out
 }
